@@ -8,6 +8,10 @@ Modes:
   server  real server vs scripted client: a valid baseline request with exactly one mutation of
           known verdict (or an arbitrary octet string), delivered under a seeded segmentation.
   client  real client vs scripted server: likewise for the response.
+  limit   one real server factory with maxConnections and several scripted clients whose TCP
+          connects, request segments, onConnect continuations and drops interleave: never more
+          than maxConnections peers admitted at once; a request is admitted iff the connections
+          alive when it is processed (itself included) do not exceed the limit.
 """
 
 import base64
@@ -16,11 +20,11 @@ import hashlib
 from sim.core import HarnessError
 from sim.ref_ws import SenderMonitor
 from sim.seams import SEAMS
-from worlds.ws import WS_MAGIC, WsWorld, exc_site, ws_classes
+from worlds.ws import WS_MAGIC, Ep, WsWorld, exc_site, ws_classes
 
 PROP = "C07"
 MAX_STEPS = 120
-MODES = ["server", "client", "pair", "server", "client"]
+MODES = ["server", "client", "pair", "server", "client", "limit"]
 
 URLS = [("ws://localhost:9000", "localhost", 9000, "/"),
         ("ws://example.com/chat", "example.com", 80, "/chat"),
@@ -70,8 +74,144 @@ class World(WsWorld):
             self.build_pair_mode()
         elif self.mode == "server":
             self.build_server_mode()
+        elif self.mode == "limit":
+            self.build_limit_mode()
         else:
             self.build_client_mode()
+
+    # --- connection limit: several clients, one factory -------------------------------------------------------
+    def build_limit_mode(self):
+        ch = self.run.ch
+        aw, RecServer, RecClient = ws_classes()
+        cfg = self.cfg = {"maxConn": ch.pick((1, 2, 3), "maxConnections"), "n": 2 + ch.choose(4, "nclients")}
+        cfg["async"] = [ch.flag("async-onConnect", 0.4) for _ in range(cfg["n"])]
+        fac = aw.WebSocketServerFactory("ws://localhost:9000", **self.fw.factory_kw(self.reactor))
+        fac.setProtocolOptions(openHandshakeTimeout=0, maxConnections=cfg["maxConn"])
+        fac.protocol = RecServer
+        self.fac = fac
+        self.conns = []
+        self.conn_of = {}
+        for k in range(cfg["n"]):
+            name = "E%d" % k
+            t, p, peer, e2p, p2e = self.fw.connect_raw(self.run, self.reactor, fac, True, name=name)
+            peer.name = "P%d" % k
+            e = Ep(self, name, True)
+            e.t, e.p = t, p
+            p.ep = e
+            t.observers.append(e.on_write)
+            e.monitor = None
+            conn = LimitConn()
+            conn.k, conn.e, conn.peer, conn.p2e = k, e, peer, p2e
+            conn.to_send = self.client_request_bytes()
+            conn.started = conn.dropped = False
+            conn.expect_admit = None
+            conn.pending = None
+            conn.decided = None
+            e.hooks["on_connect"] = lambda req, conn=conn: self.limit_on_connect(conn)
+            t.observers.append(lambda data, *a, conn=conn: self.limit_on_write(conn, data))
+            self.conns.append(conn)
+            self.conn_of[e] = conn
+        self.mutation = "limit"
+        self.verdict = "n/a"
+        self.max_open_seen = 0
+        self.run.log("cfg", "limit", sorted((k, repr(v)) for k, v in cfg.items()))
+
+    def live(self):
+        """connections the factory has accepted and not yet lost"""
+        return len([c for c in self.conns if c.started and c.e.onclose_count == 0])
+
+    def limit_on_connect(self, conn):
+        # the server decided to admit (the limit check is behind it): judged against the connections alive right now
+        live = self.live()
+        conn.decided = "admit"
+        self.run.log("limit", "admitted", conn.k, "live", live)
+        if live > self.cfg["maxConn"]:
+            self.run.violate(self.P + ".accept-iff-valid", "invalid-request-accepted:over-connection-limit",
+                             "connection %d admitted with %d connections alive, maxConnections=%d" % (conn.k, live, self.cfg["maxConn"]))
+        if self.cfg["async"][conn.k]:
+            conn.pending = self.fw.new_future(self)
+            self.run.probe("limit:onConnect-pending")
+            return conn.pending
+        return None
+
+    def limit_on_write(self, conn, data):
+        if conn.decided is None and bytes(data[:12]) == b"HTTP/1.1 503":
+            live = self.live()
+            conn.decided = "refuse"
+            self.run.log("limit", "refused", conn.k, "live", live)
+            if live <= self.cfg["maxConn"]:
+                self.run.violate(self.P + ".accept-iff-valid", "valid-request-rejected:below-connection-limit",
+                                 "connection %d refused with %d connections alive, maxConnections=%d" % (conn.k, live, self.cfg["maxConn"]))
+
+    def limit_actions(self):
+        acts = []
+        for conn in self.conns:
+            k = conn.k
+            if not conn.started:
+                acts.append((3.0, "accept:%d" % k, lambda conn=conn: self.limit_accept(conn)))
+                continue
+            if conn.dropped:
+                continue
+            if conn.to_send:
+                acts.append((4.0, "peer-send:%d" % k, lambda conn=conn: self.limit_send(conn)))
+            if conn.pending is not None:
+                acts.append((2.5, "resolve-onConnect:%d" % k, lambda conn=conn: self.limit_resolve(conn)))
+            acts.append((0.6, "peer-drop:%d" % k, lambda conn=conn: self.limit_drop(conn)))
+        return acts
+
+    def limit_accept(self, conn):
+        conn.started = True
+        self.eps.append(conn.e)
+        self.pipes.append((conn.p2e, conn.e))
+        self.start(conn.e)
+
+    def limit_send(self, conn):
+        ch = self.run.ch
+        n = len(conn.to_send)
+        k = n if ch.flag("send-all", 0.5) else 1 + ch.choose(n, "send-k")
+        data, conn.to_send = conn.to_send[:k], conn.to_send[k:]
+        conn.peer.send(data)
+
+    def limit_resolve(self, conn):
+        f, conn.pending = conn.pending, None
+        self.fw.call(self, self.fw.resolve_future, f, None)
+
+    def limit_drop(self, conn):
+        conn.dropped = True
+        self.run.fault("limit:peer-drop")
+        if self.run.ch.flag("rst", 0.4):
+            conn.peer.rst()
+        else:
+            conn.peer.fin()
+
+    def limit_invariant(self):
+        n_open = len([c for c in self.conns if c.started and c.e.p._st in (3, 2)])
+        self.max_open_seen = max(self.max_open_seen, n_open)
+        if n_open > self.cfg["maxConn"] and not getattr(self, "_limit_bad", False):
+            self._limit_bad = True
+            self.run.violate(self.P + ".accept-iff-valid", "more-peers-admitted-than-maxConnections",
+                             "%d open at once, maxConnections=%d" % (n_open, self.cfg["maxConn"]))
+
+    def final_limit(self):
+        run = self.run
+        for conn in self.conns:
+            e = conn.e
+            opened = any(ev[0] == "onOpen" for ev in e.events)
+            if conn.decided == "admit":
+                if opened:
+                    run.probe("limit:admitted")
+                elif not conn.dropped:
+                    run.violate(self.P + ".accept-iff-valid", "valid-request-rejected:admitted-but-never-opened", "connection %d" % conn.k)
+            elif conn.decided == "refuse":
+                run.probe("limit:refused")
+                if opened:
+                    run.violate(self.P + ".accept-iff-valid", "invalid-request-accepted:refused-then-opened", "connection %d" % conn.k)
+                if e.p._st != 0 and not e.t.is_gone():
+                    run.violate(self.P + ".reject-is-clean", "not-dropped:limit", "connection %d" % conn.k)
+            elif conn.started and e.rx_http_done and not conn.dropped:
+                run.violate(self.P + ".accept-iff-valid", "valid-request-rejected:no-verdict", "connection %d: %r" % (conn.k, bytes(e.http_out[:40])))
+        if self.max_open_seen >= 2:
+            run.probe("limit:two-or-more-open-at-once")
 
     # --- pair ------------------------------------------------------------------------------------------
     def build_pair_mode(self):
@@ -517,6 +657,8 @@ class World(WsWorld):
     # --- actions -----------------------------------------------------------------------------------------------------
     def extra_actions(self):
         acts = []
+        if self.mode == "limit":
+            return self.limit_actions()
         if self.mode == "server":
             if self.to_send and not self.peer.closed:
                 acts.append((4.0, "peer-send", self.peer_send_part))
@@ -540,6 +682,23 @@ class World(WsWorld):
         self.peer.send(data)
 
     def drain(self):
+        if self.mode == "limit":
+            guard = 0
+            while guard < 50:
+                guard += 1
+                todo = [c for c in self.conns if not c.started or (not c.dropped and (c.to_send or c.pending is not None))]
+                if not todo:
+                    break
+                conn = todo[0]
+                if not conn.started:
+                    self.limit_accept(conn)
+                elif conn.to_send:
+                    conn.peer.send(conn.to_send)
+                    conn.to_send = b""
+                else:
+                    self.limit_resolve(conn)
+                WsWorld.drain(self)
+            return WsWorld.drain(self)
         if self.mode == "client" and not self.response_made:
             WsWorld.drain(self)
             if b"\r\n\r\n" in bytes(self.peer.received):
@@ -557,12 +716,16 @@ class World(WsWorld):
 
     def check_step(self):
         self.check_escapes()
+        if self.mode == "limit":
+            self.limit_invariant()
 
     def final(self):
         run = self.run
         self.check_escapes()
         if self.mode == "pair":
             return self.final_pair()
+        if self.mode == "limit":
+            return self.final_limit()
         e = self.e
         opened = any(ev[0] == "onOpen" for ev in e.events)
         state_open = e.p._st == 3 or 3 in e.states
@@ -701,6 +864,10 @@ class World(WsWorld):
         s["mutation"] = self.mutation
         s["verdict"] = self.verdict
         return s
+
+
+class LimitConn:
+    pass
 
 
 def valid_base(world, limit_hit):
